@@ -60,7 +60,7 @@ def invoke(rec, sts, form, sg=1.0, idx=None):
     kw = kwargs_of(rec, sg)
     if idx is None:
         idx = [k - 1 for k in cl["idx"]]
-    sub = [sts[k] for k in idx]
+    sub = [sts[k] for k in idx] if form in ("sub", "args", "bi") else None
     if fn == "filter":
         th = (cl["thr"] // 100) / float(cl["thr"] % 100)
         return f(sts, th, return_removed_spikes=True, **kw)
@@ -225,6 +225,17 @@ def unchanged(sts, snap):
 def chk_multi_abs(rec, be):
     out = []
     n = 0
+    if rec["res"]["t"] == "error":
+        # error paths are outside the 20 properties: advisory observation only
+        sts = trains_of(rec)
+        st, r = call(invoke, rec, sts, "idx")
+        got = ("raise:" + r.split(":")[0]) if st != "ok" else "a value"
+        if got != rec["res"]["err"]:
+            m = _mm("error-path", "%s[%s] %s: the library answers with %s, the specification says %s" % (
+                API[rec["call"]["fn"]], be, hdr(rec), got, rec["res"]["err"]))
+            m["advisory"] = True
+            out.append(m)
+        return 1, out
     for sg in rec.get("_sigmas", (1.0, 2.0 ** -10)):
         sts = trains_of(rec, sg)
         snap = snapshot(sts)
